@@ -4,7 +4,7 @@ from .util import startswith
 
 ID = "C42"
 EX = "breezy.export"
-FUNCTIONS = [EX + ":_export_iter_entries"]
+FUNCTIONS = [EX + ":_export_iter_entries", EX + ":dir_exporter_generator"]
 STUBS = ["tree = stub: iter_entries_by_dir yields (path, entry) for the root and a few entries with SYMBOLIC paths; "
          "is_special_path answers by NAME for whatever path it is asked about (paths starting with the letter 's' stand for "
          "paths starting with the control-directory prefix), has_filename is a symbolic predicate per entry"]
@@ -12,7 +12,8 @@ ASSUMPTIONS = ["tree paths are '/'-separated, non-empty, without leading/trailin
                "reference: with a sub-directory S, an entry is exported iff it lies strictly inside S (path = S + '/' + rest, "
                "exported as rest) or it is the file S itself (exported under its own name); without S every entry is "
                "exported under its tree path; special (.bzr*) and filtered-out entries are never exported"]
-OUTSIDE = ["the archive writers (tar / zip / directory: I/O, zlib) and the real revision trees", "more entries than the bound"]
+OUTSIDE = ["the tar / zip writers (tarfile / zipfile, zlib), the real file system below the directory exporter (os calls are "
+           "recorded) and the real revision trees", "more entries than the bound"]
 
 ALPHA = "as/"          # 'a' an ordinary letter, 's' the stand-in for the control-directory prefix, '/' the separator
 
@@ -117,9 +118,119 @@ def ob_entries(cx):
         cx.cover("whole")
 
 
+def ob_dir_export(cx):
+    """dir_exporter_generator: the selected entries (stand-in for _export_iter_entries, decided above) are written below the
+    destination - directories made, symlinks made with their target, every file created with ITS OWN executable bit
+    (0o777 / 0o666 before umask), its content and its time stamp; the tree may deliver the file contents in any order."""
+    M = cx.mod(EX)
+    T = cx.truth
+    nfiles = cx.choose("nfiles", 1, cx.p("nfiles"))
+    files = [dict(i=i, dp="d/f%d" % i, tp="sub/d/f%d" % i, exe=cx.bool("exec%d" % i), mtime=cx.int("mtime%d" % i, 0, 10 ** 6),
+                  chunks=[b"content-%d" % i]) for i in range(nfiles)]
+    entries = [("d", "sub/d", _Entry("directory", "d"))] + [(f["dp"], f["tp"], _Entry("file", "f")) for f in files]
+    entries.append(("d/link", "sub/d/link", _Entry("symlink", "link")))
+    M._export_iter_entries = lambda tree, subdir, recurse_nested=False: iter(entries)
+    forced = cx.int("force_mtime", 0, 10 ** 6) if cx.choose("has_force_mtime", 0, 1) else None
+    order = list(range(nfiles))
+    if nfiles >= 2 and cx.choose("reverse_delivery", 0, 1):
+        order.reverse()
+    log = []
+
+    class Out:
+        def __init__(self, path):
+            self.path = path
+
+        def __enter__(self):
+            return self
+
+        def __exit__(self, *a):
+            return False
+
+        def writelines(self, chunks):
+            log.append(("write", self.path, list(chunks)))
+    real_os = cx.real("os")
+
+    class OS:
+        O_CREAT, O_TRUNC, O_WRONLY = real_os.O_CREAT, real_os.O_TRUNC, real_os.O_WRONLY
+
+        @staticmethod
+        def mkdir(p):
+            log.append(("mkdir", p))
+
+        @staticmethod
+        def listdir(p):
+            return []
+
+        @staticmethod
+        def symlink(target, p):
+            log.append(("symlink", p, target))
+
+        @staticmethod
+        def open(p, flags, mode=0o777):
+            log.append(("open", p, flags, mode))
+            return p
+
+        @staticmethod
+        def fdopen(fd, how):
+            return Out(fd)
+
+        @staticmethod
+        def utime(p, times):
+            log.append(("utime", p, times))
+    M.os = OS
+
+    class Tree:
+        @staticmethod
+        def get_symlink_target(tp):
+            return "target-of-" + tp
+
+        @staticmethod
+        def iter_files_bytes(wanted):
+            wanted = list(wanted)
+            for k in order:
+                tp, ident = wanted[k]
+                yield ident, files[k]["chunks"]
+
+        @staticmethod
+        def is_executable(tp):
+            f = [f for f in files if f["tp"] == tp][0]
+            return T(f["exe"])
+
+        @staticmethod
+        def get_file_mtime(tp):
+            return [f for f in files if f["tp"] == tp][0]["mtime"]
+    for _ in M.dir_exporter_generator(Tree, "/dest", "root", subdir="sub", force_mtime=forced):
+        pass
+    cx.require(log[0] == ("mkdir", "/dest") and ("mkdir", "/dest/d") in log, "destination / directory not created")
+    cx.require(("symlink", "/dest/d/link", "target-of-sub/d/link") in log, "symlink not created with its target")
+    for f in files:
+        full = "/dest/" + f["dp"]
+        opens = [e for e in log if e[0] == "open" and e[1] == full]
+        cx.require(len(opens) == 1, "file %s opened %d times" % (full, len(opens)))
+        want_mode = 0o777 if T(f["exe"]) else 0o666
+        cx.require(opens[0][3] == want_mode, "file %d is %sexecutable in the tree and is created with mode %o" %
+                   (f["i"], "" if T(f["exe"]) else "not ", opens[0][3]))
+        cx.require(opens[0][2] & (OS.O_CREAT | OS.O_TRUNC | OS.O_WRONLY) == (OS.O_CREAT | OS.O_TRUNC | OS.O_WRONLY), "wrong open flags")
+        cx.require(("write", full, f["chunks"]) in log, "file %d does not get its own content" % f["i"])
+        ut = [e for e in log if e[0] == "utime" and e[1] == full]
+        want_t = forced if forced is not None else f["mtime"]
+        cx.require(len(ut) == 1 and T(ut[0][2][0] == want_t) and T(ut[0][2][1] == want_t), "file %d gets another time stamp" % f["i"])
+        cx.require(log.index(("mkdir", "/dest/d")) < log.index(opens[0]), "file written before its directory exists")
+    if nfiles >= 2 and T(files[0]["exe"]) != T(files[1]["exe"]):
+        cx.cover("mixed_executable_bits")
+    if forced is not None:
+        cx.cover("forced_mtime")
+    cx.cover("exported")
+    cx.observe("nops", len(log))
+
+
 def obligations(tier):
     q = tier == "quick"
     p = dict(nentries=2, lpath=3 if q else 4)
-    return [Ob("export_entries", ob_entries, [EX], p, 900 if q else 7200, 3 if q else 1, ["subtree", "outside_subdir", "whole"],
+    return [Ob("dir_export", ob_dir_export, [EX], dict(nfiles=2 if q else 3), 900 if q else 3600, 1,
+               ["exported", "mixed_executable_bits", "forced_mtime"],
+               bounds="a directory, a symlink and <= %d files with symbolic executable bits and time stamps, contents delivered "
+                      "in tree order or reversed, with / without a forced time stamp" % (2 if q else 3)),
+            Ob("export_entries", ob_entries, [EX], p, 900 if q else 7200, 3 if q else 1, ["subtree", "outside_subdir", "whole"],
                bounds="<= %(nentries)d entries with symbolic paths of <= %(lpath)d chars over 'ab/', symbolic sub-directory of "
                       "<= %(lpath)d chars (with / without trailing slash, empty, none), special / filtered flags" % p)]
